@@ -245,6 +245,16 @@ def wide_group_case(rng):
     spec = {'encoding': 'utf-8', 'uuid': 'wide-%08x' % rng.getrandbits(32), 'base': base, 'prince': [], 'terms': terms, 'omen': None}
     return {'spec': spec, 'flags': {'skip_brute': False, 'all_lower': False}, 'hseed': rng.getrandbits(32), 'wide_group': n}
 
+def legacy_fixed_case(rng):
+    """A ruleset in a legacy code page whose words, once a mask upper-cases them, leave that code page (latin-1: y-diaeresis, micro sign; cp1251: micro sign)."""
+    enc = rng.choice(['latin-1', 'latin-1', 'cp1252', 'cp1251'])
+    odd = {'latin-1': ['ÿa', 'µm'], 'cp1252': ['µm', 'aµ'], 'cp1251': ['µm', 'µя']}[enc]
+    terms = {'A2': [[odd[0], 0.4], ['ab', 0.3], [odd[1], 0.2], ['zz', 0.1]], 'C2': [['LL', 0.5], ['UL', 0.25], ['UU', 0.15], ['LU', 0.1]],
+             'D1': [['1', 0.6], ['7', 0.4]], 'O1': [['!', 1.0]]}
+    base = [['A2D1', 0.5], ['A2', 0.3], ['A2O1A2', 0.2]]
+    spec = {'encoding': enc, 'uuid': 'legacy-%08x' % rng.getrandbits(32), 'base': base, 'prince': [], 'terms': terms, 'omen': None}
+    return {'spec': spec, 'flags': {'skip_brute': False, 'all_lower': False}, 'hseed': rng.getrandbits(32), 'legacy_fixed': True}
+
 def markov_heavy_case(rng, tier):
     pm, n = (0.999, 60) if tier == 'quick' else (0.9995, 1200)
     spec = rulesets.gen_spec(rng, with_m=True, labels=['D1', 'A2'], n_base=2, max_len=2, min_groups=1, max_groups=2, max_per_group=3, pool='counts')
@@ -267,6 +277,9 @@ def run(run, rng):
         run.guard(gen_case(rng), check_case, run.tier, seconds=600)
     if run.shard[0] == 1 % run.shard[1]:
         run.guard(markov_heavy_case(rng, run.tier), check_markov_heavy, seconds=900)
+    if run.shard[0] == 3 % run.shard[1]:
+        run.ev('legacy_code_page_cases')
+        run.guard(legacy_fixed_case(rng), check_case, run.tier, seconds=600)
     if run.shard[0] == 2 % run.shard[1]:
         run.ev('wide_group_cases')
         run.guard(wide_group_case(rng), check_case, run.tier, seconds=600)
